@@ -23,7 +23,8 @@
 (***************************************************************************)
 EXTENDS Integers, Sequences, TLC, Json
 
-CONSTANT TraceFile
+CONSTANTS TraceFile,
+          Arrivals     \* TRUE: arrivals are judged; FALSE: only the probes and the final state (for properties that do not own arrivals)
 Tr == ndJsonDeserialize(TraceFile)
 
 VARIABLES l, goneP, goneC, liveC, late
@@ -53,9 +54,15 @@ ChanAlive == "16384" \in liveC
 TSendP == IsEvent("PeerSend") /\ late' = (IF Line.ip \in goneP /\ ~ChanAlive THEN late \cup {Line.id} ELSE late) /\ UNCHANGED <<goneP, goneC, liveC>>
 TSendC == IsEvent("ChanSend") /\ late' = (IF Line.n \in goneC THEN late \cup {Line.id} ELSE late) /\ UNCHANGED <<goneP, goneC, liveC>>
 \* something arrived: it was not sent while its authority had been announced gone
-TArrive == IsEvent("Arrive") /\ Line.id \notin late /\ UNCHANGED <<goneP, goneC, liveC, late>>
+TArrive == IsEvent("Arrive") /\ (Arrivals => Line.id \notin late) /\ UNCHANGED <<goneP, goneC, liveC, late>>
+\* what the client submits on a channel that is alive arrives -- unless the deletion of that channel has been announced
+\* by the time the driver gives up waiting (two other channels lapse in the same instant: their removals overlap)
+TProbe    == IsEvent("Probe") /\ UNCHANGED <<goneP, goneC, liveC, late>>
+TProbeEnd == IsEvent("ProbeEnd") /\ (Line.arrived \/ Line.n \in goneC) /\ UNCHANGED <<goneP, goneC, liveC, late>>
+\* the server has been closed under traffic: nothing is left, every announced allocation has been announced deleted
+TDown  == IsEvent("Down") /\ Line.count = 0 /\ Line.created = Line.deleted /\ UNCHANGED <<goneP, goneC, liveC, late>>
 TNote  == IsEvent("Note") /\ UNCHANGED <<goneP, goneC, liveC, late>>
-TNext == TReset \/ TEv \/ TGone \/ TSendP \/ TSendC \/ TArrive \/ TNote
+TNext == TReset \/ TEv \/ TGone \/ TProbe \/ TProbeEnd \/ TDown \/ TSendP \/ TSendC \/ TArrive \/ TNote
 TSpec == TInit /\ [][TNext]_tvars
 
 Progress == TLCSet(1, IF l > TLCGet(1) THEN l ELSE TLCGet(1))
